@@ -13,6 +13,8 @@ def exhaustive(ctx, pid):
     if pid in DEV:
         cfg, inv = DEV[pid]
         ctx.tlc_mc("Durable.tla", cfg, timeout=300, expect_violation=inv, count=False)
+    if pid == "C05":
+        ctx.tlc_mc("Durable.tla", "Durable_dev_lo.cfg", timeout=300, expect_violation="SearchCorrect", count=False)
 
 def run_file(ctx, mode, nscen, ntrials, tag, timeout=3000):
     drv = ctx.go_build("dbfile")
